@@ -62,6 +62,28 @@ def install(E: Any) -> None:
                     c = (r.t >= v.t) if name == "max" else (r.t <= v.t)
                     r = V(z3.If(c, r.t, v.t), r.ty)
                 return r
+            if len(n.args) == 1 and not n.keywords:
+                # max(<iterable of ints>): ValueError when empty; otherwise an upper bound that is attained
+                xs = self.as_seq(self.expr(n.args[0], st), st)
+                if xs.ty.elem != INT:
+                    raise Unsupported(f"{name}() over {xs.ty}", n)
+                self.check(st, self.seq_len(xs) > 0, "ValueError", f"{name}() of an empty iterable")
+                S = self.sort(xs.ty)
+                fn = self.pre.func(f"seq{name}_{xs.ty.name}", S, T.I)
+                arg = self.pre.func(f"seqarg{name}_{xs.ty.name}", S, T.I)
+                key = f"seq{name}.{xs.ty.name}"
+                if key not in self.pre._done:
+                    self.pre._done.add(key)
+                    q = z3.Const("s", S)
+                    i = z3.Int("i")
+                    ln, idx = self.pre.seqf(xs.ty, "len"), self.pre.seqf(xs.ty, "idx")
+                    cmp = (lambda a, b: a <= b) if name == "max" else (lambda a, b: a >= b)
+                    self.pre.ax(f"{key}.bound", z3.ForAll([q, i], z3.Implies(z3.And(0 <= i, i < ln(q)), cmp(idx(q, i), fn(q))),
+                                                          patterns=[z3.MultiPattern(idx(q, i), fn(q))]))
+                    self.pre.ax(f"{key}.attained", z3.ForAll([q], z3.Implies(ln(q) > 0, z3.And(0 <= arg(q), arg(q) < ln(q), idx(q, arg(q)) == fn(q))),
+                                                             patterns=[fn(q)]))
+                trust(f"{name}(iterable of int): raises ValueError when empty, else a bound of all elements that one element attains")
+                return V(fn(xs.t), INT)
             raise Unsupported(f"{name}() over an iterable", n)
         return f
     E.builtins["max"] = b_maxmin("max")
@@ -172,6 +194,7 @@ def install(E: Any) -> None:
                 from .engine import State as _State
                 q = V(z3.Const(f"sq_{tag}", S), xs.ty)
                 gst = _State()
+                outer_reads = getattr(self, "fields_read", None)
                 self.fields_read = set()
                 fs = facts(q, V(fn(q.t), xs.ty), gst)
                 reads = set(self.fields_read)
@@ -184,7 +207,9 @@ def install(E: Any) -> None:
             except Unsupported:
                 pass
             finally:
-                self.fields_read = None
+                if outer_reads is not None:
+                    outer_reads |= (self.fields_read or set())
+                self.fields_read = outer_reads
         for f in facts(xs, r, st):
             self.assume(st, f)
         return r
